@@ -11,6 +11,19 @@ COMMON_NOTE = ('Trusted: Lean 4.33 kernel with axioms propext/Classical.choice/Q
                'every invocation; harness generators, canonicalisation and monitors; ')
 
 CHECKS = {
+    'C20': dict(
+        text='Theorems: TitleVersion and ContentTypeFlags words (all 65536 words, exhaustive in the kernel); SMDH flag and region '
+             'words (all flag subsets, the region-free constant, ignored bits); SMDH application title value->bytes->value and '
+             'canonical image->value->image for any well-formed UTF-16 text up to the field width (non-BMP included); the icon '
+             'decoder\'s address map = Morton order in row-major 8x8 tiles for every pixel of both icon sizes, colour expansion for '
+             'all 65536 RGB565 values, and decode(tile(pixels)) = expand(pixels) for whole icons; seed database save->load; '
+             'DIFI / IVFC / DPFS value->bytes->value; NCSD header image->value->image.  Config savegame and the backward LZSS '
+             'decoder are modelled and compared with pyctr on outputs of independent builders / a reference compressor '
+             '(their round trips are decided by that comparison and the monitors, not yet by a theorem).',
+        note=COMMON_NOTE + 'Python utf-16le codec = library semantics (strings as code-unit lists with a validity predicate); strings '
+             'with NUL at either end are outside the round trip (strip); the reference compressor is greedy and in-place-safe.',
+        technique='Lean 4 proof (algebraic round trips, exhaustive kernel evaluation) + model/implementation correspondence',
+        design='§4 C20'),
     'C16': dict(
         text='Theorems over EVERY object graph (not only the transcribed ones): closes and I/O calls only ever raise closed flags and '
              'change nothing else; a close sets the object\'s own flag; a closed object, or a handle whose consulted inner object is '
